@@ -10,6 +10,7 @@ Open Scope N_scope.
 Definition q_elems (q : qframe) : list elem :=
   match q with
   | QData _ es d => EData d :: (if es then [EEnd] else [])
+  | QDataP _ es d _ => EData d :: (if es then [EEnd] else [])
   | QHdr _ es p fields _ => [EHdr (Some fields) es p]
   | QPush _ pr fields _ => [EPush pr (Some fields)]
   | QPrio _ p => [EPrio p]
